@@ -335,6 +335,8 @@ class TypeMap:
         return t
 
     def tag(self, ctype):
+        # LP64: size_t and unsigned long are one type; one tag, so that pair<size_t,..> and pair<unsigned long,..> coincide
+        ctype = re.sub(r"\bsize_t\b", "unsigned long", ctype)
         return ident(ctype.replace("struct ", "").replace("*", "P").replace(" ", "_"))
 
     def struct_tag(self, name):
@@ -446,9 +448,10 @@ class TypeMap:
             return self.c(a0) + "*"
         if last in ASSOC_ITERS and t.args:
             return self.c(t.args[0]) + "*"
-        if last in ("iterator", "const_iterator", "reverse_iterator", "const_reverse_iterator") and "::" in name:
+        if last in ("iterator", "const_iterator", "reverse_iterator", "const_reverse_iterator") and "::" in name \
+                and not t.args:
             # std::vector<T>::iterator printed unsugared
-            m = re.match(r"(.*)<(.*)>::(const_)?iterator$", name)
+            m = re.match(r"(.*)<(.*)>::(const_)?(reverse_)?iterator$", name)
             if m and m.group(1).split("::")[-1] in SEQS:
                 return self.c(parse(first_targ(m.group(2)))) + "*"
             raise Unsupported("iterator type %s" % name)
